@@ -218,6 +218,8 @@ def args_parser_match_array(val, arr, match_type=1):
     val[b] = np.char.upper(val[b].astype(str))
     lookup_array = np.ravel(arr).copy()
     arr_types = _vect_get_type_id(lookup_array)
+    # Blank cells are neither text nor numbers: they never match.
+    arr_types[lookup_array == np.array(sh.EMPTY, dtype=object)] = 3
     b = arr_types == 1
     lookup_array[b] = np.char.upper(lookup_array[b].astype(str))
     index = np.arange(1, lookup_array.size + 1)
